@@ -50,6 +50,12 @@ class List(Expression):
         staging = out.var('staging', [])
 
         with out.WHILE(True):
+            # Test the upper bound before parsing the next element, so that a
+            # bound of zero that is only known at parse time is honoured too.
+            if self.max_len is not None:
+                with out.IF(LEN(staging) >= Code(self.max_len)):
+                    out += BREAK
+
             if self.expr.can_partially_succeed():
                 checkpoint = out.var('checkpoint', POS)
 
@@ -59,10 +65,6 @@ class List(Expression):
                 out += BREAK
 
             out += staging.append(RESULT)
-
-            if self.max_len is not None:
-                with out.IF(LEN(staging) == Code(self.max_len)):
-                    out += BREAK
 
         if not self.min_len or self.min_len == '0':
             out += RESULT << staging
